@@ -23,6 +23,7 @@ def claim(pid, category, text, note, technique, design_ref):
 
 FORMULA_NOTE = ('Evaluators are resolved as the API\'s virtual call resolves them (vtable slot of the base declaration). '
                 'The long double instantiation of the same evaluators is additionally checked for type purity (no double-precision intermediate or double-rounded constant; perturbation model of narrowing as in C09). '
+                'The registration executed on the IR must bind every registered parameter name to a member of its own (parameter-binding obligation; replay assigns all names in both orders and reads them back). '
                 'An obligation the solver does not decide within the budget is printed UNDECIDED (never counted as held); before that its replay is run at concrete '
                 'admissible points found by sampling under the obligation\'s path conditions, and a mismatch of the real library there is reported as a violation. '
                 'Real-arithmetic model of floating point (exact +,-,*,/ and exact libm; rounding/overflow/libm accuracy outside the claim); '
@@ -69,7 +70,7 @@ claim('C06', 'other',
 
 claim('C08', 'other',
       'sod_1d: (a) rtbis with func UNINTERPRETED, unrolled 3 (5 thorough) bisection steps and case-split on every sign: at every return the result is the lower end of a bracket [r, r+dx] with func(r) <= 0 <= func(r+dx) and |dx| < xacc or |func(mid)| < thresh; '
-      '(b) with p_m a symbol: func == (shock-side - rarefaction-side velocity)/c_r, Rankine-Hugoniot mass and momentum jumps, every evaluator path returns the value of the wave region its conditions select with front speeds -c_l, -v_t, v_m, v_s, fronts ordered, density/velocity continuous across the fan (Gamma = 7/5; 5 rational values thorough). '
+      '(b) with p_m a symbol: func == (shock-side - rarefaction-side velocity)/c_r (also for func as it evaluates in the state of the rtbis call site of EACH evaluator), Rankine-Hugoniot mass and momentum jumps, every evaluator path returns the value of the wave region its conditions select with front speeds -c_l, -v_t, v_m, v_s, fronts ordered, density/velocity continuous across the fan (Gamma = 7/5; 5 rational values thorough). '
       'Sod members that the evaluators do not recompute are arbitrary remembered values. Replay for Sod: both evaluators on an x/t grid over every wave region against the exact Riemann solution. cp_normal: prior/posterior == normalised normal densities with the conjugate mean/variance for data vectors of length 1..3 (6) with symbolic contents, posterior ~ likelihood*prior (exponent derivatives), loglikelihood == exponent of the likelihood, mean/variance evaluators, central moments k=0..20.',
       FORMULA_NOTE + ' Sod states are the library\'s hard-coded (1,1) / (1/8,1/8); fractional powers are opaque atoms with v^q = base^p axioms, so the relation list is claimed for the listed rational Gamma values; bisection is bounded by the stated unrolling.',
       'symbolic execution of LLVM IR with uninterpreted func / summarised rtbis + SMT (z3 nlsat) identities and inequalities', 'DESIGN.md §4 C08')
@@ -107,11 +108,11 @@ claim('C10', 'other',
       'Every evaluator override of every catalogue class (both scalar types) executed from the object state in which registered parameters are named symbols and every member that any method of the class writes is an independent fresh symbol: '
       'the merged result may mention only parameters/vector contents/arguments (else a two-copy z3 query decides equality), the final value of every registered scalar and vector parameter equals its initial symbol, and no store leaves the object. '
       'Function-local statics are modelled (first-call initialisation forks; an initialised static holds an arbitrary earlier value), so a value remembered across calls or handles shows as a dependence. '
-      'With the registry isolation of C12 this gives history independence over any interleaving. Replays: evaluation order, parameter change between two evaluations at one point, process order (first evaluation with other parameters).',
+      'With the registry isolation of C12 this gives history independence over any interleaving. Replays: evaluation order (also after the same evaluator at four further points), parameter change between two evaluations at one point, process order (first evaluation with other parameters); when the two-copy query times out a point is searched under the path condition of the path that mentions the stale member and the replay runs there.',
       STRUCT_NOTE + ' Bit-for-bit reproducibility assumes every IR operation is a deterministic function of its operand bits (fixed rounding mode).', 'symbolic execution of LLVM IR from an arbitrary object state (frame + self-composition)', 'DESIGN.md §4 C10')
 claim('C12', 'other',
       'One API step from a registry state with K (2 quick, 3 thorough) entries whose handle strings are pairwise-distinct SYMBOLS mapped to live objects built by the real masa_init on the IR: '
-      'masa_select_mms(H) (a normal return without a matched handle is a violation), masa_init(H,name) (fresh default instance mapped at H and selected, nothing else written), masa_set_param (stores only inside the selected object), masa_list_mms/get_name, and independence of the double and long double registries (no <Scalar> operation writes the other registry, and observers -- get_name, get_dimension, sanity_check, get_param, list_mms, an evaluator -- report the same with and without a solution selected in the other registry); H symbolic covers every registered and every new handle. '
+      'masa_select_mms(H) (a normal return without a matched handle is a violation), masa_init(H,name) (fresh default instance mapped at H and selected, nothing else written), masa_set_param (stores only inside the selected object), masa_list_mms/get_name, and independence of the double and long double registries (no <Scalar> operation writes the other registry, and observers -- get_name, get_dimension, sanity_check, get_param, list_mms, an evaluator -- report the same with and without a solution selected in the other registry; the same comparison and the no-store condition are swept over EVERY MASA::masa_*<Scalar> entry point found in the IR with generic symbolic arguments, replayed in two processes); H symbolic covers every registered and every new handle. '
       'Bounded API sequences (depth 4 quick, 5 thorough) of init/select/set_param/get_param over 2 handles from the empty registry are explored against a reference registry (state outside the K-entry shape, e.g. the first init).',
       STRUCT_NOTE + ' K bounds the symbolic shape only; std::map is modelled for any K.', 'symbolic execution of LLVM IR over a symbolic finite-map registry (inductive one-step)', 'DESIGN.md §4 C12')
 claim('C13', 'model_checking',
@@ -135,7 +136,7 @@ claim('C18', 'other',
 claim('C19', 'other',
       'Engine A memory model (undef tracking, region lifetimes, container index checks, heap ownership) over: static initialisation and all 37 constructors, masa_init from a symbolic registry (allocations balance to exactly one live instance per handle, replaced instance freed), the failing calls (unknown solution name on a new or existing handle, unknown handle: '
       'the registry holds only live instances at the fatal error and the static destructor run by exit(1) releases each exactly once), every solution-dependent API function called before any masa_init (no null or uninitialised access on the way to the fatal error), printid/list/display, the registry destructor, '
-      'every documented evaluator of every class with symbolic arguments and parameters (no read of a never-written member), vector parameters of every length 0..4 and every combination of lengths 0..2 followed by every evaluator, the C array interface of length 0..4 through the real callee. Findings replay under valgrind.',
+      'every documented evaluator of every class with symbolic arguments and parameters (no read of a never-written member), vector parameters of every length 0..4 and every combination of lengths 0..2 followed by every evaluator, a refused set/get of a scalar or vector parameter under an unregistered name followed by every observer of the store (display, sanity check, get, purge, init_param), the C array interface of length 0..4 through the real callee. Findings replay under valgrind.',
       STRUCT_NOTE + ' UB classes are those the IR shows (see evidence assumptions); libstdc++ internals and allocation failure are outside.', 'symbolic execution of LLVM IR with an explicit memory/ownership model', 'DESIGN.md §4 C19')
 
 ALL = ['C%02d' % i for i in range(1, 21)]
